@@ -151,7 +151,9 @@ def run_obligations(obls, log):
             mine = [o for o in obls if o.crate == crate]
             groups = {}
             for o in mine:
-                key = (tuple(sorted(f for f in o.flags if f in ("nofloat", "quant"))), o.budget)
+                # one cargo-kani invocation per flag set: all harnesses share the 16 worker threads; the per-harness
+                # timeout is the largest budget in the group (budgets are >= 5x the measured time on the unchanged tree)
+                key = (tuple(sorted(f for f in o.flags if f in ("nofloat", "quant"))), 0)
                 groups.setdefault(key, []).append(o)
             for (flags, _budget), os_ in sorted(groups.items()):
                 # heavy harnesses (mem) get fewer jobs
@@ -161,7 +163,7 @@ def run_obligations(obls, log):
                 outjson = os.path.join(E1DIR, f"out-{crate}-{'_'.join(flags) or 'std'}-{os.getpid()}.json")
                 if os.path.exists(outjson):
                     os.remove(outjson)
-                cmd = _kani_cmd(crate, [o.harness for o in os_], flags, tmo, outjson, jobs)
+                cmd = _kani_cmd(crate, [o.harness for o in sorted(os_, key=lambda o: -o.budget)], flags, tmo, outjson, jobs)
                 info["cmds"].append(" ".join(cmd[:14]) + f" … ({len(os_)} harnesses)")
                 log(f"[e1] cargo kani {crate} flags={flags} harnesses={len(os_)} jobs={jobs}")
                 wall = tmo * (len(os_) / jobs + 1) + 1500
